@@ -100,6 +100,9 @@ class Cmp:
         for s in db.make_seqs.values():
             seen.append(("seq:" + s["scoped_name"], s["comment"], "make-seq"))
         for key, comment, what in seen:
+            for d in re.findall(r"detached#\w+", comment or ""):
+                self.fact()
+                self.bad(f"comment-detached-attached:{what}", doc=d, found_on=key)
             for d in re.findall(r"doc#\w+", comment or ""):
                 self.fact()
                 owner = self.docs.get(d)
@@ -356,6 +359,23 @@ class Cmp:
                 self.check_function(qn, fns, c)
             # data members
             for mm in c["members"]:
+                if mm.get("twin"):
+                    # the same member spelled directly and through a typedef: the recorded accessors must agree
+                    if mm["name"].startswith("tw_direct_"):
+                        e1 = next((e for e in db.elements.values() if e["scoped_name"] == mm["qname"]), None)
+                        e2 = next((e for e in db.elements.values() if e["scoped_name"] == c["qname"] + "::" + mm["twin"]), None)
+                        kind = "class" if mm.get("classmember") else ("const-int" if mm["const"] else "int")
+                        self.fact()
+                        self.res.features.add("member:typedef-twin:" + kind)
+                        if (e1 is None) != (e2 is None):
+                            self.bad("typedef-twin-member:presence:" + kind, name=mm["qname"], direct=e1 is not None, alias=e2 is not None)
+                        elif e1 is not None:
+                            for fl in ("has_getter", "has_setter"):
+                                self.fact()
+                                if e1[fl] != e2[fl]:
+                                    self.bad(f"typedef-twin-member:{fl}:" + kind, name=mm["qname"], direct=e1[fl], alias=e2[fl])
+                    if mm.get("classmember"):
+                        continue
                 e = next((e for e in db.elements.values() if e["scoped_name"] == mm["qname"]), None)
                 self.fact()
                 what = ("static" if mm["static"] else "const" if mm["const"] else "array" if mm["array"] else "plain")
@@ -369,6 +389,8 @@ class Cmp:
                 if mm["array"]:
                     if et is None or not et["is_array"] or et["array_size"] != mm["array"]:
                         self.bad("member-type:array", name=mm["qname"], got=et and et["true_name"])
+                elif mm["name"].startswith("tw_alias_"):
+                    pass      # declared through a typedef: the recorded type is the typedef (checked by the twin rule)
                 else:
                     exp = {"atomic string", "std::string", "std::basic_string< char >"} if mm["type"]["k"] == "string" else \
                         expect_type(mm["type"], "ret")
